@@ -190,10 +190,6 @@ theorem agree_setDist (b : B) (m : Machine) (h : Agree b m) (r : Bool) :
   simp only [stepSetDist, Machine.run, List.foldl, exec_mode]
   exact ⟨rfl, rfl, hp⟩
 
-def motionOp : Op → Bool
-  | .move .. | .moveAbs .. | .setAxis .. | .home .. | .probe .. | .setDist .. | .enterCtx .. | .exitCtx => true
-  | _ => false
-
 /-- statements the position machine ignores -/
 def mNeutral (s : Stmt) : Bool :=
   !(s.codes.contains .G90 || s.codes.contains .G91 || isMotion s || s.codes.contains .G92 || s.codes.contains .G28 || isProbe s)
